@@ -367,7 +367,12 @@ def flush_model(ctx, rule):
             for order in itertools.permutations(["w1", "w2", "w3", "w4", "w5"], r):
                 ws = mk_watchers()
                 events = [Obj(e, name=e[0], what="value", id=e, changed=not e.endswith("0")) for e in evnames]
-                ns = Obj("ns", _events=list(events), _state_watchers=[ws[k] for k in order], _TRIGGER=False, self_or_cls=Obj("owner"))
+                # the queued watchers are no longer registered anywhere (e.g. a relink rebuilt the source watchers after
+                # the event was queued): what was queued for an event that happened is delivered all the same
+                pnames = {k: Obj("P_" + k, watchers={}) for k in ("a", "b", "c")}
+                ns = Obj("ns", _events=list(events), _state_watchers=[ws[k] for k in order], _TRIGGER=False, self_or_cls=Obj("owner"),
+                         self=None, __getitem__=pnames, __contains__=list(pnames))
+                ns.attrs["cls"] = Obj("Cls", param=ns)
                 runs = []
                 cascade = {"done": False}
 
@@ -390,7 +395,7 @@ def flush_model(ctx, rule):
                         return None
                     return NotImplemented
                 wc = Obj("wc", precedence=0, parameter_names=["c"], what="value", queued=False, onlychanged=True)
-                it = Interp(ctx.hier, call_hook=hook, strict_self_calls=True)
+                it = Interp(ctx.hier, dyn=P + "Parameters", inline=lambda m: True, call_hook=hook, strict_self_calls=True)
                 try:
                     outs = it.run_all(fl, {"self_": ns})
                 except Unsupported as e:
